@@ -309,6 +309,39 @@ func checkC11RealMulti(cs *c11RealCase, r *Rec) error {
 			return fmt.Errorf("composition through several shipped loaders differs (the first loader that has a name wins)\n got  %q\n want %q\n %s", got, want.String(), desc)
 		}
 	}
+	// the cache of such a set: after the entry's file changed, CleanCache(name) makes the next
+	// FromCache(name) show the new content (the name is spelled as the caller spells it)
+	if cs.Unrooted && werr == nil && cerr == nil && cs.Kind == "localbase+" {
+		entry := strings.TrimPrefix(vc.Root, "/")
+		for i, files := range vc.Loaders {
+			f, has := files[vc.Root]
+			if !has {
+				continue
+			}
+			if f.Extends != "" || f.Plain {
+				break // text appended to a child outside its blocks is ignored anyway
+			}
+			src := f.sourceWith(func(ref string) string { return write(vc.Root, ref) }) + "~v2"
+			if err := os.WriteFile(fmt.Sprintf("%s/L%d%s", top, i, vc.Root), []byte(src), 0o644); err != nil {
+				return skipf("cannot rewrite: %v", err)
+			}
+			same, _ := set.FromCache(entry)
+			if same != tpl {
+				return fmt.Errorf("FromCache(%q) returned another instance although CleanCache was not called\n %s", entry, desc)
+			}
+			set.CleanCache(entry)
+			tpl2, e2 := set.FromCache(entry)
+			if e2 != nil {
+				return fmt.Errorf("FromCache(%q) after CleanCache: %v\n %s", entry, e2, desc)
+			}
+			got2, x2 := tpl2.Execute(pongo2.Context{"cv": "C"})
+			if x2 != nil || got2 != want.String()+"~v2" {
+				return fmt.Errorf("the file of %q changed and CleanCache(%q) was called, but FromCache renders %q (err %v), want %q\n %s", entry, entry, got2, x2, want.String()+"~v2", desc)
+			}
+			r.Class("cleancache-by-name")
+			break
+		}
+	}
 	r.Class("loader:" + cs.Kind)
 	if len(vc.Loaders) >= 2 {
 		r.NonTrivial(desc)
